@@ -194,7 +194,7 @@ def run(ctx):
             ctx.check(bad is None, "R12.3", uid, f"handler contract, {data_label}", msg=f"{uid} for a service call with {data_label}: {bad}", key=f"service handler contract {data_label}",
                       node=f, rel=uid.split("::")[0])
         inner = [s for s in f.body if isinstance(s, ast.AsyncFunctionDef)]
-        ok2 = bool(inner) and any(isinstance(t, ast.Try) and any("Exception" in norm(h.type) for h in t.handlers if h.type is not None) for t in ast.walk(inner[0]))
+        ok2 = bool(inner) and any(isinstance(t, ast.Try) and any(isinstance(h.type, ast.Name) and h.type.id in ("Exception", "BaseException") for h in t.handlers if h.type is not None) for t in ast.walk(inner[0]))
         ctx.check(ok2, "R12.3", uid, "the function call is protected", msg=f"{uid}: the service's function call is no longer wrapped in try/except Exception",
                   key="service call protected", node=f, rel=uid.split("::")[0])
 
@@ -226,7 +226,9 @@ def run(ctx):
     ctx.rule("R12.5", "both subsystems reject the built-in service names", floor=2)
     for uid in ("eval.py::EvalFunc.trigger_init", "decorators/service.py::ServiceDecorator.validate"):
         f = program.func(uid)
-        ok = any(isinstance(n, ast.If) and "SERVICE_RELOAD" in norm(n.test) and "SERVICE_JUPYTER_KERNEL_START" in norm(n.test)
+        def names(t):
+            return {x.id for x in ast.walk(t) if isinstance(x, ast.Name)}
+        ok = any(isinstance(n, ast.If) and {"SERVICE_RELOAD", "SERVICE_JUPYTER_KERNEL_START"} <= names(n.test)
                  and any(isinstance(m, ast.Raise) for m in n.body) for n in body_walk(f))
         ctx.check(ok, "R12.5", uid, "reload / jupyter_kernel_start rejected", msg=f"{uid} no longer rejects @service names that collide with the built-in services",
                   key="builtin names rejected", node=f, rel=uid.split("::")[0])
